@@ -741,9 +741,9 @@ def model(ctx):
     out = os.path.join(ctx.scratch, 'c18_export.json')
     env = {'TIER': ctx.tier, 'OUT_FILE': out}
     to = 1500 if ctx.tier == 'thorough' else 400
-    ctx.model_must_hold('MC_C18', 'MC_C18.cfg', env=env, timeout=to,
+    ctx.model_must_hold('MC_C18', 'MC_C18.cfg', env=env, timeout=to, xmx='4g',
                         label='transcriptions of restrict/remove/+/unused/to_meshtri/to_meshtet satisfy the clauses')
-    ctx.model_must_hold('MC_C18', 'MC_C18_dup.cfg', env={'TIER': ctx.tier, 'OUT_FILE': ''}, timeout=to,
+    ctx.model_must_hold('MC_C18', 'MC_C18_dup.cfg', env={'TIER': ctx.tier, 'OUT_FILE': ''}, timeout=to, xmx='4g',
                         label='+ remove_duplicate_nodes as transcribed from today\'s code (finding #15)')
     recs = []
     if os.path.exists(out):
